@@ -21,11 +21,18 @@ PrefixBytes ==
     [] Prefix = "sq"      -> <<115, cEQ, cSQ>>          \* s='
     [] Prefix = "comment" -> <<cSLASH, cSTAR>>
     [] Prefix = "initial" -> <<>>
+    [] Prefix = "dqenv"   -> <<115, cEQ, cDQ, cDOLLAR, cLB>>      \* s="${ ... }"
+    [] Prefix = "env"     -> <<115, cEQ, cDOLLAR, cLB>>           \* s=${ ... }
+SuffixBytes ==
+  CASE Prefix = "dqenv" -> <<cRB, cDQ>>
+    [] Prefix = "env"   -> <<cRB>>
+    [] OTHER            -> <<>>
 LitStart == 4     \* position of the first byte of the literal body in Text (dq / sq)
 
 (* class representatives *)
 AlphaSet ==
   CASE Alpha = "dq"  -> {cBS, cDQ, cNL, cDOLLAR, cLB, cRB, cCOLON, cMINUS, 49, 51, 55, 56, 120, 110, 97, 86, 85, 113}
+    [] Alpha = "envbody" -> {86, 85, 69, 113, cCOLON, cMINUS, cDOLLAR}      \* V U E q : - $
     [] Alpha = "dqlines" -> {cBS, cDQ, cNL, cSP, 113, cHASH}
     [] Alpha = "dqesc" -> {cBS, cDQ, 49, 51, 55, 56, 120, 97, 102, 113}
     [] Alpha = "sq"  -> {cBS, cSQ, cDQ, cNL, cDOLLAR, cLB, cRB, 86, 113, 49}
@@ -37,7 +44,7 @@ AlphaSet ==
 (* environment of the models: V = "w{", E = "" (set but empty), U unset *)
 EnvModel == (<<86>> :> <<119, 123>>) @@ (<<69>> :> <<>>)
 
-Text == PrefixBytes \o inp
+Text == PrefixBytes \o inp \o SuffixBytes
 
 Init == inp = <<>>
 Next == Len(inp) < MaxLen /\ \E b \in AlphaSet : inp' = Append(inp, b)
@@ -56,8 +63,8 @@ P_C02_Progress == Steps(Text, LexInit(1), 0) <= Len(Text) + 1
 
 (* C03: the literal at the start of the text decodes exactly as the reference says *)
 P_C03_RulesMeanRef ==
-  Prefix \in {"dq", "sq"} =>
-     LET ref == IF Prefix = "dq" THEN RefDq(Text, LitStart, <<>>) ELSE RefSq(Text, LitStart, <<>>)
+  Prefix \in {"dq", "sq", "dqenv"} =>
+     LET ref == IF Prefix \in {"dq", "dqenv"} THEN RefDq(Text, LitStart, <<>>) ELSE RefSq(Text, LitStart, <<>>)
      IN IF ref.ok
           THEN (Len(R.toks) >= 3 /\ R.toks[3].k = "str" /\ R.toks[3].v = ref.val)
           ELSE (R.err /\ Len(R.toks) = 2)
